@@ -509,7 +509,10 @@ def _tabled1_analysis(ctx):
     X = atoms[0] if len(atoms) == 1 else ("flen", form, 2)
     res = {"fn": fn, "E": E, "X": X, "atoms": atoms, "paths": paths, "arms": {}}
     for pairw in (32, 16):
-        arm = [s for s in paths if M.possible_values(X, s.facts, extra=(16, 32), lo=0)[0] == {pairw}]
+        # case split on the rendered width of a pair: the function is evaluated again with len(form.format(a, b)) = pairw, so it does not
+        # matter how (or whether) the code branches on it
+        Ep = engine(ctx, BULK, "wttabled1", pins={X: pairw})
+        arm = [s for s in Ep.finals if s.status in ("run", "return")]
         res["arms"][pairw] = [(s, to_lines(stream(s.events))) for s in arm]
     ctx._c13_tabled1 = res
     return res
@@ -1627,22 +1630,24 @@ def _seq_elems(v, seq):
     out = []
     if isinstance(v, S):
         for x in v.p:
-            if x[0] == "fv":
-                out.extend(_seq_elems(x[2], seq))
+            for y in x[1:]:
+                if isinstance(y, (tuple, S)):
+                    out.extend(_seq_elems(y, seq))
     elif isinstance(v, tuple) and v:
         if v[0] == "elem" and M.origin(v[1]) == seq and not (isinstance(v[2], tuple) and v[2][:1] in (("tuple",), ("sl",))):
             out.append(lin(v[2]))
-        elif v[0] == "tuple":
-            for x in v[1]:
-                out.extend(_seq_elems(x, seq))
+        else:
+            for x in (v[1:] if isinstance(v[0], str) else v):
+                if isinstance(x, (tuple, S)):
+                    out.extend(_seq_elems(x, seq))
     return out
 
 
 def _has_thru(v):
     if isinstance(v, S):
-        return any(x[0] == "lit" and "THRU" in x[1] for x in v.p)
-    if isinstance(v, tuple) and v and v[0] == "tuple":
-        return any(_has_thru(x) for x in v[1])
+        return any((x[0] == "lit" and "THRU" in x[1].upper()) or any(_has_thru(y) for y in x[1:] if isinstance(y, (tuple, S))) for x in v.p)
+    if isinstance(v, tuple) and v:
+        return any(_has_thru(x) for x in (v[1:] if isinstance(v[0], str) else v) if isinstance(x, (tuple, S)))
     return False
 
 
